@@ -11,7 +11,7 @@
 (*         inequality (soundness rule S2, bin/ratcheck.py)                  *)
 (*   cov : which clauses were evaluated non-vacuously on this line          *)
 (***************************************************************************)
-EXTENDS Integers, Sequences, FiniteSets, TLC, Json, IOUtils, Rat, SluStore, SluFactor
+EXTENDS Integers, Sequences, FiniteSets, TLC, Json, IOUtils, Rat, SluStore, SluFactor, SluSolve
 
 Tr == ndJsonDeserialize(IOEnv.TRACE)
 \* MODE = "light": storage / allocator clauses only (the numeric replay of the factorization is skipped;
@@ -231,6 +231,12 @@ MemUsageOK(ev) ==
       total == forlu + (2 * panel + (IF ilu THEN 9 ELSE 4) + 3) * n * iw + (panel + 1) * n * dw
   IN /\ TokOK(ev.mem[1]) /\ TokOK(ev.mem[2])
      /\ Dy(ev.mem[1]) = <<forlu, 1>> /\ Dy(ev.mem[2]) = <<total, 1>>
+\* power-of-two scalings act on the exponent of a value token: [num, ld] * 2^k = [num, ld - k]
+IsPow2Tok(t) == Len(t) = 2 /\ t[1] = 1
+ExpOf(t) == -t[2]
+ShiftTok(t, k) == IF t[1] = 0 THEN t ELSE <<t[1], t[2] - k>>
+ShiftValTok(t, k, cplx) == IF cplx THEN <<ShiftTok(t[1], k), ShiftTok(t[2], k)>> ELSE ShiftTok(t, k)
+ExactTok(t, cplx) == IF cplx THEN Len(t[1]) = 2 /\ Len(t[2]) = 2 ELSE Len(t) = 2
 EquedOK(q) == q \in {"N", "R", "C", "B"}
 RowEqu(q) == q \in {"R", "B"}
 ColEqu(q) == q \in {"C", "B"}
@@ -246,25 +252,28 @@ GssvxVerdict(ev, sc) ==
       notranEff == IF tr THEN ev.opts.Trans # 0 ELSE ev.opts.Trans = 0
       aok == \A t \in 1..Len(ev.A0) : ValOK(ev.A0[t][3], cplx)
       a1ok == \A k \in 1..Len(ev.A1v) : ValOK(ev.A1v[k], cplx)
-      rcok == \A i \in 1..n : TokOK(ev.R[i]) /\ TokOK(ev.C[i])
-      \* --- A after the call: diag(R) AA diag(C) restricted to equed, AA = A (NC) or A' (NR)
-      scaleOf(t) == LET i == IF tr THEN ev.A0[t][2] ELSE ev.A0[t][1]
-                        j == IF tr THEN ev.A0[t][1] ELSE ev.A0[t][2]
-                        v0 == Val(ev.A0[t][3], cplx)
-                        v1 == IF RowEqu(q) THEN CMul(RealTok(ev.R[i + 1]), v0) ELSE v0
-                    IN IF ColEqu(q) THEN CMul(v1, RealTok(ev.C[j + 1])) ELSE v1
+      \* exponents of the scale factors that equed selects (defined when those factors are powers of two)
+      rpow == RowEqu(q) => \A i \in 1..n : IsPow2Tok(ev.R[i]) /\ ExpOf(ev.R[i]) \in -1000..1000
+      cpow == ColEqu(q) => \A i \in 1..n : IsPow2Tok(ev.C[i]) /\ ExpOf(ev.C[i]) \in -1000..1000
+      rcok == rpow /\ cpow
+      eR(i) == IF RowEqu(q) THEN ExpOf(ev.R[i + 1]) ELSE 0
+      eC(j) == IF ColEqu(q) THEN ExpOf(ev.C[j + 1]) ELSE 0
+      rowOf(t) == IF tr THEN ev.A0[t][2] ELSE ev.A0[t][1]       \* position in AA = A (NC) or A' (NR)
+      colOf(t) == IF tr THEN ev.A0[t][1] ELSE ev.A0[t][2]
       needRC == RowEqu(q) \/ ColEqu(q)
+      a0exact == \A t \in 1..Len(ev.A0) : ExactTok(ev.A0[t][3], cplx)
+      \* --- A after the call: diag(R) AA diag(C) restricted to equed
       ascaled == IF ~needRC THEN \A t \in 1..Len(ev.A0) : ev.A1v[t] = ev.A0[t][3]
-                 ELSE (aok /\ a1ok /\ rcok) => \A t \in 1..Len(ev.A0) : Val(ev.A1v[t], cplx) = scaleOf(t)
-      ascaledChecked == ~needRC \/ (aok /\ a1ok /\ rcok)
+                 ELSE (a0exact /\ rcok) => \A t \in 1..Len(ev.A0) : ev.A1v[t] = ShiftValTok(ev.A0[t][3], eR(rowOf(t)) + eC(colOf(t)), cplx)
+      ascaledChecked == ~needRC \/ (a0exact /\ rcok)
       \* --- B after the call
       solved == (info = 0 \/ info = n + 1) /\ ~query /\ Has(ev, "B0") /\ ev.nrhs > 0
-      bscale(i) == IF notranEff /\ RowEqu(q) THEN ev.R[i] ELSE IF ~notranEff /\ ColEqu(q) THEN ev.C[i] ELSE <<1, 0>>
+      bexp(i) == IF notranEff /\ RowEqu(q) THEN eR(i) ELSE IF ~notranEff /\ ColEqu(q) THEN eC(i) ELSE 0
       bneeds == (notranEff /\ RowEqu(q)) \/ (~notranEff /\ ColEqu(q))
-      bok == \A k \in 1..ev.nrhs : \A i \in 1..n : ValOK(ev.B0[k][i], cplx) /\ ValOK(ev.B1[k][i], cplx)
+      bok == \A k \in 1..ev.nrhs : \A i \in 1..n : ExactTok(ev.B0[k][i], cplx)
       bscaled == IF ~(solved /\ bneeds) THEN (Has(ev, "B0") => ev.B_same = 1)
                  ELSE (bok /\ rcok) => \A k \in 1..ev.nrhs : \A i \in 1..n :
-                         Val(ev.B1[k][i], cplx) = CMul(RealTok(bscale(i)), Val(ev.B0[k][i], cplx))
+                         ev.B1[k][i] = ShiftValTok(ev.B0[k][i], bexp(i - 1), cplx)
       \* --- factorization clauses on the matrix that was factored (the values of A after the call)
       Fent == [t \in 1..Len(ev.A0) |-> <<ev.A0[t][1], ev.A0[t][2], ev.A1v[t]>>]
       F == IF a1ok THEN DenseOf(Fent, n, n, cplx, tr) ELSE <<>>
@@ -273,9 +282,16 @@ GssvxVerdict(ev, sc) ==
             ELSE [bad |-> {}, arb |-> {}, cov |-> {}, d2 |-> FALSE]
       \* --- solution: op(A0) X = B0 for the caller's original A and B
       opname == IF ev.opts.Trans = 0 THEN "N" ELSE IF ev.opts.Trans = 1 \/ ~cplx THEN "T" ELSE "C"
-      A == DenseOf(ev.A0, n, n, cplx, FALSE)
+      \* with Fact = FACTORED the caller passes the equilibrated matrix together with equed, R, C: the system
+      \* solved is that of the matrix before scaling, diag(R)^-1 AA diag(C)^-1 (AA = A or A' for row storage)
+      unscTok(t) == ShiftValTok(ev.A0[t][3], -(eR(rowOf(t)) + eC(colOf(t))), cplx)
+      unscOK == a0exact /\ rcok /\ \A t \in 1..Len(ev.A0) : ValOK(unscTok(t), cplx)
+      A == IF fact = 3 /\ needRC
+           THEN (IF unscOK THEN DenseOf([t \in 1..Len(ev.A0) |-> <<ev.A0[t][1], ev.A0[t][2], unscTok(t)>>], n, n, cplx, FALSE) ELSE <<>>)
+           ELSE DenseOf(ev.A0, n, n, cplx, FALSE)
       opA == [ij \in Rows(n) \X Rows(n) |-> IF opname = "N" THEN A[ij] ELSE IF opname = "T" THEN A[<<ij[2], ij[1]>>] ELSE CConj(A[<<ij[2], ij[1]>>])]
-      asmall == \A t \in 1..Len(ev.A0) : ATokSmall(ev.A0[t][3], cplx)
+      asmall == IF fact = 3 /\ needRC THEN unscOK /\ (\A t \in 1..Len(ev.A0) : ATokSmall(unscTok(t), cplx))
+                ELSE \A t \in 1..Len(ev.A0) : ATokSmall(ev.A0[t][3], cplx)
       sv == IF solved /\ ev.fn = "gssvx" /\ ~Light THEN SolveVerdict(ev, opA, aok /\ asmall, n, ev.X1, cplx, "C05.residual")
             ELSE [arb |-> {}, cov |-> {}, nexact |-> 0]
       \* --- storage clauses (C07 / C08)
@@ -283,7 +299,7 @@ GssvxVerdict(ev, sc) ==
       digs == IF Has(ev, "L") /\ Has(ev.L, "dig") /\ Has(ev, "U") /\ Has(ev.U, "dig") THEN <<ev.L.dig, ev.L.digs, ev.U.dig, ev.U.digs, ev.perm_r, ev.perm_c, ev.L.nnz, ev.U.nnz>> ELSE <<>>
       bad == fv.bad
         \cup (IF ~EquedOK(q) THEN {"C05.equed_letter"} ELSE {})
-        \cup (IF EquedOK(q) /\ ~query /\ info >= 0 /\ ~ascaled THEN {"C05.A_scaled_as_equed"} ELSE {})
+        \cup (IF EquedOK(q) /\ ~query /\ info >= 0 /\ fact # 3 /\ ~ascaled THEN {"C05.A_scaled_as_equed"} ELSE {})
         \cup (IF EquedOK(q) /\ ~query /\ info >= 0 /\ ~bscaled THEN {"C05.B_scaled_as_documented"} ELSE {})
         \cup (IF fact = 0 /\ ev.opts.Equil = 0 /\ ~query /\ info >= 0 /\ q # "N" THEN {"C05.equed_without_equil"} ELSE {})
         \cup (IF ev.Astruct_same # 1 THEN {"C05.A_structure_modified"} ELSE {})
@@ -292,6 +308,8 @@ GssvxVerdict(ev, sc) ==
         \cup (IF info > 0 /\ info <= n /\ Has(ev, "B_same") /\ ev.B_same # 1 THEN {"C04.B_modified"} ELSE {})
         \cup (IF fact = 3 /\ info >= 0 /\ ~(ev.same.Lval = 1 /\ ev.same.Uval = 1 /\ ev.same.Lstr = 1 /\ ev.same.Ustr = 1 /\ ev.same.perm_c = 1 /\ ev.same.perm_r = 1)
               THEN {"C06.resolve_altered_factors"} ELSE {})
+        \cup (IF fact \in {1, 2} /\ info >= 0 /\ ev.same.perm_c # 1 THEN {"C06.column_order_not_reused"} ELSE {})
+        \cup (IF fact = 3 /\ info >= 0 /\ (\E t \in 1..Len(ev.A0) : ev.A1v[t] # ev.A0[t][3]) THEN {"C06.resolve_modified_A"} ELSE {})
         \cup (IF haswork /\ ev.work.guards_ok # 1 THEN {"C08.guard_overrun"} ELSE {})
         \cup (IF sc.memfail /\ ~(info > n) THEN {"C08.shortage_not_reported"} ELSE {})
         \cup (IF query /\ ~(ev.same.perm_c = 1 /\ ev.same.perm_r = 1 /\ ev.same.etree = 1 /\ ev.same.R = 1 /\ ev.same.C = 1 /\ ev.same.equed = 1
@@ -318,13 +336,32 @@ GssvxVerdict(ev, sc) ==
         \cup (IF query THEN {"C08.query_checked"} ELSE {})
         \cup (IF sc.memfail THEN {"C08.shortage_seen"} ELSE {})
         \cup (IF q # "N" THEN {"C05.equed_" \o q} ELSE {})
+        \cup {"C06.fact_" \o (CASE fact = 0 -> "DOFACT" [] fact = 1 -> "SamePattern" [] fact = 2 -> "SameRowPerm" [] OTHER -> "FACTORED")}
   IN [bad |-> bad, arb |-> fv.arb \cup sv.arb, cov |-> cov, digs |-> IF factored /\ info = 0 THEN digs ELSE <<>>, d2 |-> fv.d2]
+
+(***************************************************************************)
+(* Rejected calls (C18): the routine reports the position SluScreen!Screen  *)
+(* computes from the violated preconditions, every caller object is byte-   *)
+(* identical and no allocation is retained.                                 *)
+(***************************************************************************)
+ScreenI == INSTANCE SluScreen WITH done <- FALSE
+ScreenVerdict(ev) ==
+  LET corrs == {ev.corrupt[i] : i \in 1..Len(ev.corrupt)}
+      \* preconditions on equed / R / C exist only when pre-computed factors are supplied
+      eff == IF ev.fact = 3 THEN corrs ELSE corrs \ ScreenI!NeedsFactored
+      expect == ScreenI!Screen(ev.routine, eff)
+      bad == (IF expect # 0 /\ ev.info # expect THEN {"C18.info_position"} ELSE {})
+             \cup (IF expect # 0 /\ ev.unchanged # 1 THEN {"C18.caller_objects_modified"} ELSE {})
+             \cup (IF expect # 0 /\ ev.live_delta # 0 THEN {"C18.allocation_retained"} ELSE {})
+             \cup (IF ev.bad_frees # 0 THEN {"C18.bad_free"} ELSE {})
+  IN [bad |-> bad, arb |-> {}, cov |-> (IF expect # 0 THEN {"C18.rejected_" \o ev.routine} ELSE {"C18.accepted_" \o ev.routine})]
 
 Verdict(ev, pm, sc) ==
   IF ev.e = "Ret" THEN
      (CASE ev.fn = "gssv" -> GssvVerdict(ev)
         [] ev.fn = "gstrf" -> GstrfVerdict(ev)
         [] ev.fn \in {"gssvx", "gsisx"} -> GssvxVerdict(ev, sc)
+        [] ev.fn = "screen" -> ScreenVerdict(ev)
         [] OTHER -> [bad |-> {}, arb |-> {}, cov |-> {"unjudged"}])
   ELSE IF ev.e = "Done" THEN
      [bad |-> (IF ev.status # "ok" THEN {"C19.abnormal_end_" \o ev.status} ELSE {}), arb |-> {}, cov |-> {}]
@@ -348,7 +385,7 @@ TNext == /\ l <= Len(Tr)
                           [sc EXCEPT !.memfail = sc.memfail \/ MemFailure(ev), !.memev = TRUE,
                                      !.nexp = IF ev.e = "Expand" /\ ev.ok = 1 /\ pm # <<>> /\ pm.e = "ExpandBegin" /\ pm.numexp > 0 THEN sc.nexp + 1 ELSE sc.nexp]
                      ELSE IF ev.e = "Ret" THEN
-                          [sc EXCEPT !.memfail = FALSE, !.liw = ev.itsz, !.nexp = 0, !.memev = FALSE,
+                          [sc EXCEPT !.memfail = FALSE, !.liw = (IF Has(ev, "itsz") THEN ev.itsz ELSE sc.liw), !.nexp = 0, !.memev = FALSE,
                                      !.ref = IF sc.ref = <<>> /\ Has(v, "digs") THEN v.digs ELSE sc.ref,
                                      !.refd2 = IF sc.ref = <<>> /\ Has(v, "digs") THEN v.d2 ELSE sc.refd2]
                      ELSE sc
